@@ -134,6 +134,49 @@ def run(R, tier, seed, driver_ok):
                 call(R, name, est.calibrate_threshold, (good, yy), f'{name}.calibrate_threshold/{tag}', f'calibrate_threshold(labels {tag})', {'est': name, 'method': 'calibrate_threshold', 'malformation': tag})
                 R.case(('c06', name, 'score', tag), True, branch='labels')
                 call(R, name, est.score, (good, yy), f'{name}.score/{tag}', f'score(labels {tag})', {'est': name, 'method': 'score', 'malformation': tag})
+        # ---- the function handed out by get_metric: points of another length (1 included: nothing may be broadcast)
+        mf = est.get_metric()
+        for wu, wv in [(w_, d) for w_ in widths] + [(d, w_) for w_ in widths] + [(1, 1) if d != 1 else (2, 2)]:
+            R.case(('c06', name, 'get_metric()', f'feature-mismatch-{wu}-{wv}'), True, branch='get_metric')
+            call(R, name, mf, (rng.randn(wu), rng.randn(wv)), f'{name}.get_metric()/feature-mismatch', f'get_metric()(u of length {wu}, v of length {wv}), fitted on {d} features',
+                 {'est': name, 'method': 'get_metric()', 'malformation': f'feature-mismatch-{wu}-{wv}', 'fitted_features': d})
+        # ---- indicator input with an array preprocessor: zero samples, and a preprocessor whose points have no feature axis
+        pre_params = {k: v for k, v in est.get_params().items() if not (isinstance(v, str) and v == 'deprecated')}
+        pre_params['preprocessor'] = X
+        try:
+            with warnings.catch_warnings():
+                warnings.simplefilter('ignore')
+                ia_, fa_ = zoo.fit_args(name, X, y, rng, indices=True)
+                est_p = zoo.CLASSES[name](**pre_params).fit(*ia_)
+        except RuntimeError:
+            est_p = None
+        if est_p is not None:
+            R.case(('c06', name, 'transform', 'zero-indicators'), True, branch='zero-indicators')
+            call(R, name, est_p.transform, (np.empty(0, dtype=int),), f'{name}.transform/zero-indicators', 'transform(zero indicators, array preprocessor)', {'est': name, 'method': 'transform', 'malformation': 'zero-indicators'})
+            R.case(('c06', name, 'pair_distance', 'zero-indicators'), True, branch='zero-indicators')
+            call(R, name, est_p.pair_distance, (np.empty((0, 2), dtype=int),), f'{name}.pair_distance/zero-indicators', 'pair_distance(zero indicator pairs, array preprocessor)', {'est': name, 'method': 'pair_distance', 'malformation': 'zero-indicators'})
+            rest0 = [np.asarray(e_)[:0] if np.asarray(e_).ndim == 1 else e_ for e_ in ia_[1:]]
+            empty_ind = np.empty((0, t), dtype=int) if t else np.empty(0, dtype=int)
+            R.case(('c06', name, 'fit', 'zero-indicators'), True, branch='zero-indicators')
+            call(R, name, zoo.CLASSES[name](**pre_params).fit, (empty_ind, *rest0), f'{name}.fit/zero-indicators', 'fit(zero indicators, array preprocessor)', {'est': name, 'method': 'fit', 'malformation': 'zero-indicators'})
+        if t:
+            flat = dict(pre_params, preprocessor=np.arange(float(len(X))))
+            R.case(('c06', name, 'fit', 'preprocessor-without-feature-axis'), True, branch='preprocessor-shape')
+            call(R, name, zoo.CLASSES[name](**flat).fit, tuple(ia_), f'{name}.fit/preprocessor-without-feature-axis', 'fit(indicator tuples, 1-D array as preprocessor)', {'est': name, 'method': 'fit', 'malformation': 'preprocessor-without-feature-axis'})
+        if name == 'LSML':
+            for tag, w_ in [('weights-short', np.ones(len(args[0]) - 1)), ('weights-long', np.ones(len(args[0]) + 2)), ('weights-2d', np.ones((len(args[0]), 1)))]:
+                R.case(('c06', name, 'fit', tag), True, branch='labels')
+                try:
+                    with warnings.catch_warnings():
+                        warnings.simplefilter('ignore')
+                        zoo.CLASSES[name](**{k: v for k, v in est.get_params().items() if not (isinstance(v, str) and v == 'deprecated')}).fit(args[0], weights=w_)
+                    oc = 'returned'
+                except ValueError:
+                    oc = 'ValueError'
+                except Exception as e:
+                    oc = type(e).__name__
+                if oc != 'ValueError':
+                    R.violation(f'{name}.fit/{tag}/{oc}', f'{name}: fit(weights of shape {w_.shape} for {len(args[0])} quadruplets) → {oc} (expected ValueError)', {'est': name, 'method': 'fit', 'malformation': tag})
         # ---- fit
         fa = args
         params = {k: v for k, v in est.get_params().items() if v != 'deprecated' or k not in ('num_constraints', 'convergence_threshold', 'num_chunks', 'k')}
